@@ -10,19 +10,27 @@
 (*   ConvertEdges - the bin-edge coordinate goes through the same F, per pixel              *)
 (*   Store      - the result object: same bins, new event coordinate (the buffer may be      *)
 (*                re-packed into bin order; the property does not care)                      *)
+(*   Recall     - the caller converts the same object again (hardening round: the property   *)
+(*                quantifies over inputs, not over what the process did before, so every      *)
+(*                call on an untouched input gives the same result - Repeatable); `work` is   *)
+(*                whatever an implementation keeps between calls, it exists for the negative   *)
+(*                control "consumed_work_buffer"                                               *)
 (*                                                                                          *)
 (* The input object `inp` is a separate variable from the working buffers; InputUntouched    *)
 (* says no action ever changes it.                                                           *)
 EXTENDS EventModeDefs, TLC
 
-CONSTANTS MaxEvents, Shapes, FullPermBins, Bug
+CONSTANTS MaxEvents, Shapes, FullPermBins, Bug, MaxCalls
 
 VARIABLES phase, lay, order, placed, cursor, gapsUsed,
           inp,      \* the caller's object: [c, w, v, x : Seq of ids]  (columns of the event table)
           owner,    \* slot -> owning bin (0 = none)
           rcol,     \* slot -> result id
-          out       \* result object: [bins: bin -> [r, w, v, x : Seq], edges: pixel -> Seq]
-vars == <<phase, lay, order, placed, cursor, gapsUsed, inp, owner, rcol, out>>
+          out,      \* result object: [bins: bin -> [r, w, v, x : Seq], edges: pixel -> Seq]
+          calls,    \* number of the current call on this input object
+          out1,     \* result of the previous call
+          work      \* a coordinate buffer kept between calls (negative control only)
+vars == <<phase, lay, order, placed, cursor, gapsUsed, inp, owner, rcol, out, calls, out1, work>>
 
 Ident(n) == [ i \in 1..n |-> i ]
 Perms(n) == { f \in [1..n -> 1..n] : \A i, j \in 1..n : i # j => f[i] # f[j] }
@@ -42,6 +50,7 @@ Init == /\ phase = "build"
              /\ order \in Orders(s[2], s[3])
         /\ placed = 0 /\ cursor = 0 /\ gapsUsed = 0
         /\ inp = None /\ owner = <<>> /\ rcol = <<>> /\ out = None
+        /\ calls = 1 /\ out1 = None /\ work = <<>>
 
 (* place the next bin (in memory order) after an optional unreferenced slot *)
 Place(gap, size) ==
@@ -53,7 +62,7 @@ Place(gap, size) ==
     /\ cursor' = cursor + gap + size
     /\ gapsUsed' = gapsUsed + gap
     /\ placed' = placed + 1
-    /\ UNCHANGED <<phase, order, inp, owner, rcol, out>>
+    /\ UNCHANGED <<phase, order, inp, owner, rcol, out, calls, out1, work>>
 
 Seal(trail) ==
     /\ phase = "build" /\ placed = NBins(lay)
@@ -62,8 +71,9 @@ Seal(trail) ==
     /\ inp' = [c |-> Ident(cursor + trail), w |-> Ident(cursor + trail),
                v |-> Ident(cursor + trail), x |-> Ident(cursor + trail)]
     /\ phase' = "broadcast"
+    /\ work' = Ident(cursor + trail)
     /\ PrintT(<<"CASE", lay'.kind, lay'.R, lay'.C, lay'.N, lay'.bg, lay'.en>>)
-    /\ UNCHANGED <<order, placed, cursor, gapsUsed, owner, rcol, out>>
+    /\ UNCHANGED <<order, placed, cursor, gapsUsed, owner, rcol, out, calls, out1>>
 
 OwnerOf(i) == IF \E b \in 1..NBins(lay) : lay.bg[b] < i /\ i <= lay.en[b]
               THEN CHOOSE b \in 1..NBins(lay) : lay.bg[b] < i /\ i <= lay.en[b] ELSE 0
@@ -76,7 +86,7 @@ Broadcast ==
     /\ phase = "broadcast"
     /\ owner' = [ i \in 1..lay.N |-> OwnerOf(i) ]
     /\ phase' = "apply"
-    /\ UNCHANGED <<lay, order, placed, cursor, gapsUsed, inp, rcol, out>>
+    /\ UNCHANGED <<lay, order, placed, cursor, gapsUsed, inp, rcol, out, calls, out1, work>>
 
 GeomOf(b) == IF Bug = "memory_order" THEN PixelOf(lay, RankInMemory(b))
              ELSE IF Bug = "column_geometry" /\ lay.kind = "pt" THEN ((b - 1) % lay.C) + 1
@@ -84,10 +94,12 @@ GeomOf(b) == IF Bug = "memory_order" THEN PixelOf(lay, RankInMemory(b))
 
 Apply ==
     /\ phase = "apply"
-    /\ rcol' = [ i \in 1..lay.N |-> IF owner[i] = 0 THEN <<0, 0>> ELSE <<GeomOf(owner[i]), inp.c[i]>> ]
+    /\ LET src == IF Bug = "consumed_work_buffer" THEN work ELSE inp.c IN
+       rcol' = [ i \in 1..lay.N |-> IF owner[i] = 0 THEN <<0, 0>> ELSE <<GeomOf(owner[i]), src[i]>> ]
     /\ inp' = IF Bug = "inplace" THEN [inp EXCEPT !.c = [ i \in 1..lay.N |-> 0 ]] ELSE inp
+    /\ work' = IF Bug = "consumed_work_buffer" THEN [ i \in 1..lay.N |-> 0 ] ELSE work
     /\ phase' = "store"
-    /\ UNCHANGED <<lay, order, placed, cursor, gapsUsed, owner, out>>
+    /\ UNCHANGED <<lay, order, placed, cursor, gapsUsed, owner, out, calls, out1>>
 
 Slice(col, b) == IF Bug = "shifted_slices" THEN SubSeq(col, lay.bg[b] + 2, IF lay.en[b] < lay.N THEN lay.en[b] + 1 ELSE lay.N)   \* off by one
                  ELSE SubSeq(col, lay.bg[b] + 1, lay.en[b])
@@ -105,13 +117,20 @@ Store ==
                                    IF Bug = "edges_first_pixel" THEN <<1, j>> ELSE <<p, j>> ] ]
                           ELSE <<>> ]
     /\ phase' = "done"
-    /\ UNCHANGED <<lay, order, placed, cursor, gapsUsed, inp, owner, rcol>>
+    /\ UNCHANGED <<lay, order, placed, cursor, gapsUsed, inp, owner, rcol, calls, out1, work>>
+
+(* the same (untouched) object is converted again *)
+Recall ==
+    /\ phase = "done" /\ calls < MaxCalls
+    /\ calls' = calls + 1 /\ out1' = out
+    /\ phase' = "broadcast"
+    /\ UNCHANGED <<lay, order, placed, cursor, gapsUsed, inp, owner, rcol, out, work>>
 
 Terminated == phase = "done" /\ UNCHANGED vars
 
 Next == \/ \E g \in 0..1, s \in 0..MaxEvents : Place(g, s)
         \/ \E t \in 0..1 : Seal(t)
-        \/ Broadcast \/ Apply \/ Store \/ Terminated
+        \/ Broadcast \/ Apply \/ Store \/ Recall \/ Terminated
 
 Spec == Init /\ [][Next]_vars
 
@@ -131,5 +150,7 @@ WeightsUntouched == Finished => \A b \in 1..NBins(lay) :
         out.bins[b].w = ExpectedIds(lay, b) /\ out.bins[b].v = ExpectedIds(lay, b)
 EdgesSameFunction == (Finished /\ lay.kind = "pt") =>
         \A p \in 1..lay.R : \A j \in 1..(lay.C + 1) : out.edges[p][j] = ExpectedEdge(lay, p, j)
+(* a second call on the same object gives the same result as the first *)
+Repeatable == (Finished /\ calls > 1) => out = out1
 InputUntouched == Built => inp = [c |-> Ident(lay.N), w |-> Ident(lay.N), v |-> Ident(lay.N), x |-> Ident(lay.N)]
 =============================================================================
